@@ -191,7 +191,8 @@ int main(int argc, char** argv) {
     //     option with every format and entity mask (other options rotated), one worker process each
     for (auto fmt : fmts) for (int mask = 0; mask < 16; ++mask) {
         if (T) {
-            for (int pool : {1, 2, 3}) for (const char* q : {"2", "3", ""}) for (int single = 0; single < 2; ++single) for (int meta = 0; meta < 2; ++meta) for (int pp = 0; pp < 2; ++pp) {
+            for (int pool : {1, 2, 3}) for (const char* q : {"2", ""}) for (int single = 0; single < 2; ++single) for (int meta = 0; meta < 2; ++meta) for (int pp = 0; pp < 2; ++pp) {
+                if (pool == 3 && (single != (mask & 1) || meta != ((mask >> 1) & 1))) continue;      // pool 3: one (single, meta) combination per mask
                 if (pp == 0 && std::string(fmt) != "pbf") continue;
                 add(Cfg{fmt, pool, q, mask, single != 0, meta != 0, pp != 0, (mask + pool) % 2 == 0}, 1, true, 2);
             }
@@ -212,9 +213,10 @@ int main(int argc, char** argv) {
     if (m.replay_mode()) {
         for (auto& j : jobs) m.run(std::string(j.o.delay_bounded ? "D:" : "P:") + j.c.name(), [&] { body(j.c); }, j.o);
     } else {
-        for (int b = 0; b <= 1; ++b) for (size_t i = 0; i < n_deep; ++i) if (b <= jobs[i].o.max_bound) run_job(jobs[i], b);
+        // smallest bounds first everywhere; thorough: the cover set to bound 2 before the configuration product, bound 3 after it
+        for (int b = 0; b <= (T ? 2 : 1); ++b) for (size_t i = 0; i < n_deep; ++i) if (b <= jobs[i].o.max_bound) run_job(jobs[i], b);
         for (size_t i = n_deep; i < jobs.size(); ++i) run_job(jobs[i], 0);
-        for (int b = 2; b <= 4; ++b) for (size_t i = 0; i < n_deep; ++i) if (b <= jobs[i].o.max_bound) run_job(jobs[i], b);
+        for (int b = (T ? 3 : 2); b <= 4; ++b) for (size_t i = 0; i < n_deep; ++i) if (b <= jobs[i].o.max_bound) run_job(jobs[i], b);
         if (T) for (size_t i = n_deep; i < jobs.size(); ++i) if (jobs[i].o.max_bound >= 1) run_job(jobs[i], 1);
     }
     int rc = m.finish();
